@@ -34,7 +34,8 @@ def main():
         res["apply_error"] = o[-500:]
     if os.path.exists(out + "/run.sh"):
         rc1, o1 = sh("bash %s/run.sh %s" % (out, wt), cwd=out, timeout=3600)
-        rc0, o0 = sh("bash %s/run.sh /repo" % out, cwd=out, timeout=3600)
+        # one cargo target dir per source tree: a shared dir silently reuses the other tree's mtime-fresh binary
+        rc0, o0 = sh("bash %s/run.sh /repo" % out, cwd=out, timeout=3600, env={pid + "_TARGET_DIR": sd + "/target-repo"})
         res["demo_with_change"] = {"rc": rc1, "tail": o1[-600:]}
         res["demo_without_change"] = {"rc": rc0, "tail": o0[-600:]}
         res["demo_confirms"] = (rc1 != 0 and rc0 == 0)
